@@ -178,6 +178,34 @@ def op_concurrent(rng, src):
     return 'concurrent-burst'
 
 
+_heavy_src = None
+
+
+def op_heavy_format(rng, src):
+    """format() with most filters switched on at once, on comment-dense
+    text: shared mutable objects are touched by several filters in one
+    call."""
+    global _heavy_src
+    if _heavy_src is None:
+        _heavy_src = grammar_texts.Source(rng, comments=0.25)
+    text = _heavy_src.text()
+    opts = {}
+    for name in ('use_space_around_operators', 'strip_comments',
+                 'strip_whitespace', 'reindent', 'reindent_aligned',
+                 'comma_first', 'indent_columns', 'compact'):
+        if rng.random() < 0.6:
+            opts[name] = True
+    if rng.random() < 0.5:
+        opts['keyword_case'] = rng.choice(options.CASES)
+    if rng.random() < 0.3:
+        opts['output_format'] = rng.choice(['python', 'php'])
+    try:
+        sqlparse.format(text, **opts)
+    except Exception:
+        pass
+    return 'heavy-format'
+
+
 def op_interleaved(rng, src):
     """Two lazy parsestream() generators advanced alternately with other
     calls in between (cooperative interleaving in one thread)."""
@@ -204,7 +232,7 @@ def op_interleaved(rng, src):
 
 
 OPS = [op_valid, op_valid, op_valid, op_bad_option, op_wrong_type,
-       op_interleaved,
+       op_interleaved, op_heavy_format, op_heavy_format,
        op_recursion, op_abandon, op_reconfigure, op_reconfigure,
        op_concurrent]
 
